@@ -1549,7 +1549,7 @@ def r12_15(prog, rep, rid='R12.15'):
              'is one for which control_cb of the scheduler calls '
              'self.add_pilots / self.remove_pilots, and carries the argument '
              'keys read on the way to that call; every command TaskManager '
-             'publishes is handled by some callback', minimum=3)
+             'publishes is handled by some callback', minimum=6)
     f = prog.method(BASE[0], BASE[1], 'control_cb')
     rep.saw(f)
     g = cfg_of(f)
@@ -2761,6 +2761,31 @@ def classify_bf_guard(prog, f, g, atom, pol, at, added):
     return (None, None)
 
 
+def _flag_from_before(g, target, cr):
+    """[(name, definition node, credit node)]: the node is guarded by a local
+    flag that holds a comparison of the usage figure evaluated BEFORE the
+    credit `cr` (the credit lies between the flag's only definition and the
+    test of the flag): the flag says nothing about the usage after it"""
+    out = []
+    for tid, lab in guards(g, target, start=nsucc(g, cr.id)[0]):
+        ta = g.nodes[tid].ast
+        while isinstance(ta, ast.UnaryOp) and isinstance(ta.op, ast.Not):
+            ta = ta.operand
+        if not isinstance(ta, ast.Name):
+            continue
+        defs, undef = defs_reaching(g, ta.id, tid)
+        if undef or len(defs) != 1 or defs[0].kind != 'stmt':
+            continue
+        v = assigned_value(defs[0].ast, ta.id)
+        if v is None or not _testlike(v) or \
+                cr.id not in between(g, defs[0].id, tid):
+            continue
+        if any(info_field(resolve_local(g, y, defs[0].id), 'used')
+               for y in walk(v) if isinstance(y, (ast.Subscript, ast.Name))):
+            out.append((ta.id, defs[0], cr))
+    return out
+
+
 def r12_5(prog, rep, rid='R12.5'):
     rep.rule(rid, 'Backfilling: a pilot becomes a candidate only with role '
              'ADDED, state within [START, STOP] and used < hwm; a pilot that '
@@ -2889,6 +2914,10 @@ def r12_5(prog, rep, rid='R12.5'):
                             cc.func.value.id == cname and cc.args and \
                             isinstance(cc.args[0], ast.Name) and \
                             cc.args[0].id == pv:
+                        early = _flag_from_before(g, x.id, cr)
+                        if early:
+                            stale += early
+                            continue
                         gs = guard_facts(g, x.id, start=nsucc(g, cr.id)[0])
                         for a, pol, t in gs:
                             stale += stale_names(g, a, t)
@@ -4952,6 +4981,9 @@ MUTATIONS += [
     dict(name='R12.5 usage read through the table before the credit, reused for the full test', rules=('R12.5',), edits=[
         (_F, _F_CR, "                        before = self._pilots[pid]['info']['used']\n" + _F_CR),
         (_F, _F_T2, "                        if before >= info['hwm']:\n")]),
+    dict(name='R12.5 full flag computed before the credit, tested after it', rules=('R12.5',), edits=[
+        (_F, _F_CR, "                        full = info['used'] >= info['hwm']\n" + _F_CR),
+        (_F, _F_T2, "                        if full:\n")]),
     dict(name='corpus h5: TaskManager.remove_pilots misspells the command', rules=('R12.15',), edits=[
         (_T, _T_REM, _T_REM.replace("'remove_pilots'", "'remove_pilot'"))]),
     dict(name='R12.15 TaskManager.add_pilots misspells the command', rules=('R12.15',), edits=[
